@@ -3,6 +3,7 @@ package checks
 import (
 	"bytes"
 	"crypto/md5"
+	"encoding/base64"
 	"encoding/hex"
 	"encoding/xml"
 	"fmt"
@@ -156,6 +157,8 @@ type c01Want struct {
 	NParts int
 	// DefaultCT: no Content-Type was supplied (the gateway default is expected)
 	DefaultCT bool
+	// MustReport: checksum algorithm the upload was created with; GET/HEAD in checksum mode must report it
+	MustReport string
 }
 
 var c01ContentHdrs = []string{"Content-Type", "Cache-Control", "Content-Disposition", "Content-Encoding", "Content-Language", "Expires"}
@@ -333,6 +336,10 @@ type c01MPPlan struct {
 	Order   string            // asc | desc
 	Redo    bool              // part 1 is first uploaded with other content, then overwritten
 	PartEnc []string          // encodings cycled over parts
+	// CsumAlgo/CsumType: the upload is created with x-amz-checksum-algorithm / x-amz-checksum-type, every part
+	// carries its checksum header and the completion lists the part checksums
+	CsumAlgo string
+	CsumType string
 }
 
 func c01MPPlans(thorough bool) []c01MPPlan {
@@ -381,6 +388,19 @@ func c01MPPlans(thorough bool) []c01MPPlan {
 		{Name: "mp:8+8+rest,desc,chunked", Cut: min3, Numbers: seq, Order: "desc", PartEnc: []string{"ss:c5", "sut:crc32:one", "signed"}},
 		{Name: "mp:halves,gaps,redo", Cut: half, Numbers: gaps, Order: "asc", Redo: true, PartEnc: []string{"unsigned", "sst:sha256:uneven"}},
 	}
+	ps = append(ps,
+		c01MPPlan{Name: "mp:8+8+rest,full-object-crc32", Cut: min3, Numbers: seq, Order: "asc", CsumAlgo: "crc32", CsumType: "FULL_OBJECT"},
+		c01MPPlan{Name: "mp:8+rest,composite-sha256", Cut: min2, Numbers: seq, Order: "desc", CsumAlgo: "sha256", CsumType: "COMPOSITE"},
+	)
+	if thorough {
+		ps = append(ps,
+			c01MPPlan{Name: "mp:halves,full-object-crc64nvme", Cut: half, Numbers: gaps, Order: "asc", CsumAlgo: "crc64nvme", CsumType: "FULL_OBJECT"},
+			c01MPPlan{Name: "mp:8+rest,full-object-crc32c", Cut: min2, Numbers: seq, Order: "desc", CsumAlgo: "crc32c", CsumType: "FULL_OBJECT"},
+			c01MPPlan{Name: "mp:8+8+rest,composite-crc32", Cut: min3, Numbers: seq, Order: "asc", CsumAlgo: "crc32", CsumType: "COMPOSITE"},
+			c01MPPlan{Name: "mp:1part,composite-sha1", Cut: one, Numbers: seq, Order: "asc", CsumAlgo: "sha1", CsumType: "COMPOSITE"},
+			c01MPPlan{Name: "mp:1part,full-object-crc32", Cut: one, Numbers: seq, Order: "asc", CsumAlgo: "crc32", CsumType: "FULL_OBJECT"},
+		)
+	}
 	if thorough {
 		ps = append(ps,
 			c01MPPlan{Name: "mp:rest+8", Cut: exact, Numbers: gaps, Order: "desc", PartEnc: []string{"md5", "hdr:crc32c"}},
@@ -406,7 +426,11 @@ func (p c01MPPlan) run(e *c01Env, gi int, key string, body []byte, m c01Meta, w 
 	}
 	path := gw.ObjPath(c01Bucket, key)
 	g := func() *gw.GW { gi++; return e.gws[gi%2] }
-	cr := NewReq("POST", path, "uploads", withHdrs(nil, m), nil)
+	var ch [][2]string
+	if p.CsumAlgo != "" {
+		ch = H("x-amz-checksum-algorithm", strings.ToUpper(p.CsumAlgo), "x-amz-checksum-type", p.CsumType)
+	}
+	cr := NewReq("POST", path, "uploads", withHdrs(ch, m), nil)
 	gw.Sign(cr, gw.Root, gw.SignOpts{})
 	resp := g().Do(cr)
 	if !resp.OK() {
@@ -433,7 +457,12 @@ func (p c01MPPlan) run(e *c01Env, gi int, key string, body []byte, m c01Meta, w 
 		c01SendBody(g(), "PUT", path, gw.Q("uploadId", id, "partNumber", fmt.Sprint(nums[0])), nil, junk, "signed", nil, nil)
 	}
 	for _, i := range idx {
-		enc := p.PartEnc[i%len(p.PartEnc)]
+		enc := "signed"
+		if p.CsumAlgo != "" {
+			enc = "hdr:" + p.CsumAlgo
+		} else {
+			enc = p.PartEnc[i%len(p.PartEnc)]
+		}
 		pr := c01SendBody(g(), "PUT", path, gw.Q("uploadId", id, "partNumber", fmt.Sprint(nums[i])), nil, parts[i], enc, partSizesFor(enc, len(parts[i])), nil)
 		if !pr.OK() {
 			return pr
@@ -442,13 +471,30 @@ func (p c01MPPlan) run(e *c01Env, gi int, key string, body []byte, m c01Meta, w 
 	}
 	var x bytes.Buffer
 	x.WriteString("<CompleteMultipartUpload>")
+	elem := map[string]string{"crc32": "ChecksumCRC32", "crc32c": "ChecksumCRC32C", "sha1": "ChecksumSHA1", "sha256": "ChecksumSHA256", "crc64nvme": "ChecksumCRC64NVME"}[p.CsumAlgo]
+	var rawSums []byte
 	for i := range parts {
-		fmt.Fprintf(&x, "<Part><PartNumber>%d</PartNumber><ETag>%s</ETag></Part>", nums[i], etags[i])
+		cs := ""
+		if p.CsumAlgo != "" {
+			v := gw.Checksum(p.CsumAlgo, parts[i])
+			cs = "<" + elem + ">" + v + "</" + elem + ">"
+			raw, _ := base64.StdEncoding.DecodeString(v)
+			rawSums = append(rawSums, raw...)
+		}
+		fmt.Fprintf(&x, "<Part><PartNumber>%d</PartNumber><ETag>%s</ETag>%s</Part>", nums[i], etags[i], cs)
 	}
 	x.WriteString("</CompleteMultipartUpload>")
 	done := NewReq("POST", path, gw.Q("uploadId", id), nil, x.Bytes())
 	gw.Sign(done, gw.Root, gw.SignOpts{})
 	resp = g().Do(done)
+	switch p.CsumType {
+	case "FULL_OBJECT":
+		w.Csum[p.CsumAlgo] = gw.Checksum(p.CsumAlgo, body)
+		w.MustReport = p.CsumAlgo
+	case "COMPOSITE":
+		w.Csum[p.CsumAlgo] = fmt.Sprintf("%s-%d", gw.Checksum(p.CsumAlgo, rawSums), len(parts))
+		w.MustReport = p.CsumAlgo
+	}
 	w.ETags = []string{mpETagParts(parts)}
 	w.IsMP = true
 	w.NParts = len(parts)
@@ -737,15 +783,21 @@ func c01Observe(g *gw.GW, key string, w *c01Want) (bad []string, n int, info map
 		cs := csumHdrs(resp.Header)
 		for a, v := range cs {
 			// a checksum header must be the checksum of the bytes (composite multipart checksums carry a -N suffix)
-			if !strings.Contains(v, "-") && v != gw.Checksum(a, w.Body) {
+			composite := strings.Contains(v, "-") || strings.EqualFold(resp.Header.Get("x-amz-checksum-type"), "COMPOSITE")
+			if !composite && v != gw.Checksum(a, w.Body) {
 				bad = append(bad, method+" x-amz-checksum-"+a+" is not the checksum of the body")
 				info[method+" checksum "+a] = fmt.Sprintf("got %s, the body's is %s (x-amz-checksum-type %q)", v, gw.Checksum(a, w.Body), resp.Header.Get("x-amz-checksum-type"))
 			}
 		}
 		for a, v := range w.Csum {
-			if got, ok := cs[a]; ok && got != v {
+			// a composite checksum may be reported with or without its -N suffix
+			if got, ok := cs[a]; ok && got != v && !(strings.Contains(v, "-") && got == v[:strings.LastIndex(v, "-")]) {
 				bad = append(bad, method+" x-amz-checksum-"+a+" differs from the supplied value")
+				info[method+" checksum "+a] = fmt.Sprintf("got %s want %s", got, v)
 			}
+		}
+		if w.MustReport != "" && cs[w.MustReport] == "" {
+			bad = append(bad, method+" does not report the checksum the upload was created with")
 		}
 		if method == "GET" {
 			getCsum = cs
@@ -1005,6 +1057,14 @@ func C01(r *ck.Run) {
 						pr := methods[c.Prev].Up(e, c.GI+1, c.Key, pbody, metas[c.PrevMeta], pw)
 						if pr == nil || !pr.OK() {
 							continue
+						}
+						// the replaced object is itself read back through both processes first (so that anything a
+						// process remembers about the key stems from the object that is about to be replaced)
+						for gi, g := range e.gws {
+							bad, n, info := c01Observe(g, c.Key, pw)
+							r.Add("evaluations", int64(n))
+							det["observed"] = info
+							report(c, "read back of the first object through "+[]string{"A", "B"}[gi], bad, det)
 						}
 						det["previous_object"] = methods[c.Prev].Name + " with " + metas[c.PrevMeta].Name
 					}
